@@ -277,9 +277,11 @@ theorem send_other_sendFr (env : Env) (now : Time) (c : Conn) (data : Bytes) (s 
 /-! ## receiver role -/
 
 structure RecvFr (c c' : Conn) (sub : Nat) : Prop where
-  win : c'.windows = c.windows
-  q : c'.queues = c.queues
-  fb : c'.fragBufs = c.fragBufs
+  win : c'.windows[sub]? = c.windows[sub]?
+  q : c'.queues[sub]? = c.queues[sub]?
+  fb : c'.fragBufs[sub]? = c.fragBufs[sub]?
+  lq : c'.queues.length = c.queues.length
+  lfb : c'.fragBufs.length = c.fragBufs.length
   eof : c'.eof = c.eof
   link : c'.linkUp = c.linkUp
   st : c'.state = c.state
@@ -287,10 +289,10 @@ structure RecvFr (c c' : Conn) (sub : Nat) : Prop where
   ciph : (c'.relCiphers[sub]?).map (fun sc => (sc.key, sc.decPos)) = (c.relCiphers[sub]?).map (fun sc => (sc.key, sc.decPos))
   con : c'.cipherOn = c.cipherOn
 
-theorem recvFr_refl (c : Conn) (sub : Nat) : RecvFr c c sub := ⟨rfl, rfl, rfl, rfl, rfl, rfl, rfl, rfl, rfl⟩
+theorem recvFr_refl (c : Conn) (sub : Nat) : RecvFr c c sub := ⟨rfl, rfl, rfl, rfl, rfl, rfl, rfl, rfl, rfl, rfl, rfl⟩
 
 theorem recvFr_trans {a b c : Conn} {sub : Nat} (h1 : RecvFr a b sub) (h2 : RecvFr b c sub) : RecvFr a c sub :=
-  ⟨h2.win.trans h1.win, h2.q.trans h1.q, h2.fb.trans h1.fb, h2.eof.trans h1.eof, h2.link.trans h1.link, h2.st.trans h1.st,
+  ⟨h2.win.trans h1.win, h2.q.trans h1.q, h2.fb.trans h1.fb, h2.lq.trans h1.lq, h2.lfb.trans h1.lfb, h2.eof.trans h1.eof, h2.link.trans h1.link, h2.st.trans h1.st,
    h2.len.trans h1.len, h2.ciph.trans h1.ciph, h2.con.trans h1.con⟩
 
 theorem recvFr_bind (c : Conn) (sub : Nat) (r : R) (f : Conn → R) (hr : RecvFr c r.c sub) (hf : ∀ x, RecvFr c x sub → RecvFr x (f x).c sub) :
@@ -304,8 +306,8 @@ theorem recvFr_bind (c : Conn) (sub : Nat) (r : R) (f : Conn → R) (hr : RecvFr
 theorem rrel_of_recvFr {c c' : Conn} {sub : Nat} {core : Core} (h : RecvFr c c' sub) (hw : SubWF c sub) (hr : RRel c sub core) :
     SubWF c' sub ∧ RRel c' sub core ∧ cipherOf c' sub = cipherOf c sub ∧ c'.windows[sub]? = c.windows[sub]? ∧
     (c.linkUp = true → c'.linkUp = true) ∧ (EofState c → EofState c') := by
-  refine ⟨⟨by rw [h.len]; exact hw.1, by rw [h.fb]; exact hw.2.1, by rw [h.q]; exact hw.2.2⟩, ⟨by rw [h.eof]; exact hr.closed,
-    by rw [h.q]; exact hr.out, fun he => ?_⟩, ?_, by rw [h.win], fun hl => by rw [h.link]; exact hl,
+  refine ⟨⟨by rw [h.len]; exact hw.1, by rw [h.lfb]; exact hw.2.1, by rw [h.lq]; exact hw.2.2⟩, ⟨by rw [h.eof]; exact hr.closed,
+    by rw [h.q]; exact hr.out, fun he => ?_⟩, ?_, h.win, fun hl => by rw [h.link]; exact hl,
     fun he hh => by rw [h.st]; exact he (by rw [← h.eof]; exact hh)⟩
   · have hl := hr.live (by rw [← h.eof]; exact he)
     refine ⟨by rw [h.fb]; exact hl.1, fun hon => ?_⟩
@@ -335,7 +337,7 @@ theorem rrel_of_recvFr {c c' : Conn} {sub : Nat} {core : Core} (h : RecvFr c c' 
         simp only [cipherOf, h1, h2, Option.map, Option.getD, hm.1, h.con]
 
 theorem arm_recvFr (c : Conn) (now : Time) (p : Packet) (k sub : Nat) : RecvFr c (c.arm now p k) sub := by
-  unfold Conn.arm; cases c.sched <;> exact ⟨rfl, rfl, rfl, rfl, rfl, rfl, rfl, rfl, rfl⟩
+  unfold Conn.arm; cases c.sched <;> exact ⟨rfl, rfl, rfl, rfl, rfl, rfl, rfl, rfl, rfl, rfl, rfl⟩
 
 theorem transmit_recvFr (env : Env) (now : Time) (c : Conn) (p : Packet) (sub : Nat) (hl : c.linkUp = true) :
     RecvFr c (c.transmit env now p).c sub := by
@@ -355,10 +357,10 @@ theorem assignIf_recvFr (c c' : Conn) (p : Packet) (isAck : Bool) (n sub : Nat) 
     split at h
     · split at h
       · cases h
-      · cases h; exact ⟨rfl, rfl, rfl, rfl, rfl, rfl, rfl, rfl, rfl⟩
+      · cases h; exact ⟨rfl, rfl, rfl, rfl, rfl, rfl, rfl, rfl, rfl, rfl, rfl⟩
     · split at h
-      · cases h; exact ⟨rfl, rfl, rfl, rfl, rfl, rfl, rfl, rfl, rfl⟩
-      · split at h <;> (cases h; exact ⟨rfl, rfl, rfl, rfl, rfl, rfl, rfl, rfl, rfl⟩)
+      · cases h; exact ⟨rfl, rfl, rfl, rfl, rfl, rfl, rfl, rfl, rfl, rfl, rfl⟩
+      · split at h <;> (cases h; exact ⟨rfl, rfl, rfl, rfl, rfl, rfl, rfl, rfl, rfl, rfl, rfl⟩)
 
 theorem encodePayload_recvFr (env : Env) (c c' : Conn) (p : Packet) (d : Bytes) (sub : Nat) (h : c.encodePayload env p = .ok (d, c')) :
     RecvFr c c' sub := by
@@ -370,7 +372,7 @@ theorem encodePayload_recvFr (env : Env) (c c' : Conn) (p : Packet) (d : Bytes) 
       · rename_i sc hsc
         split at h
         · cases h
-          exact ⟨rfl, rfl, rfl, rfl, rfl, rfl, setAt_length _ _ _, set_dec_same _ _ _ _ _ hsc, rfl⟩
+          exact ⟨rfl, rfl, rfl, rfl, rfl, rfl, rfl, rfl, setAt_length _ _ _, set_dec_same _ _ _ _ _ hsc, rfl⟩
         · cases h; exact recvFr_refl c sub
     · split at h <;> (cases h; exact recvFr_refl c sub)
   · cases h; exact recvFr_refl c sub
@@ -431,7 +433,7 @@ theorem handleAggregateAck_recvFr (env : Env) (c : Conn) (p : Packet) (sub : Nat
       · simp only []
         split
         · exact recvFr_refl c sub
-        · exact ⟨rfl, rfl, rfl, rfl, rfl, rfl, rfl, rfl, rfl⟩
+        · exact ⟨rfl, rfl, rfl, rfl, rfl, rfl, rfl, rfl, rfl, rfl, rfl⟩
 
 /-- **acknowledgements do not disturb receiving** (an acknowledged DISCONNECT is excluded: it ends the connection) -/
 theorem handle_ack_recvFr (env : Env) (now : Time) (c : Conn) (p : Packet) (sub : Nat)
@@ -460,8 +462,201 @@ theorem handle_ack_recvFr (env : Env) (now : Time) (c : Conn) (p : Packet) (sub 
       · intro x _
         split
         · split
-          · exact ⟨rfl, rfl, rfl, rfl, rfl, rfl, rfl, rfl, rfl⟩
+          · exact ⟨rfl, rfl, rfl, rfl, rfl, rfl, rfl, rfl, rfl, rfl, rfl⟩
           · exact recvFr_refl x sub
         · exact recvFr_refl x sub
+
+end Nx.L1
+
+namespace Nx.L1
+open Nx Nx.Prudp Nx.Chan
+
+/-! ## receiving on ANOTHER substream -/
+
+theorem bind_eof_mono (r : R) (f : Conn → R) (hr : r.c.eof = true) (hf : ∀ x, x.eof = true → (f x).c.eof = true) : (r.bind f).c.eof = true := by
+  unfold R.bind
+  cases r.err with
+  | some e => exact hr
+  | none => exact hf _ hr
+
+/-- the EOF flag never goes back -/
+theorem consume_eof_mono (env : Env) (s : Nat) : ∀ (rel : List Packet) (c : Conn), c.eof = true → (Conn.consume env s rel c).c.eof = true := by
+  intro rel
+  induction rel with
+  | nil => intro c h; exact h
+  | cons p ps ih =>
+    intro c h
+    unfold Conn.consume
+    split
+    · split
+      · exact h
+      · rename_i data c1 hd
+        have h1 : c1.eof = true := by rw [(decodePayload_other env c c1 p data hd).2.2]; exact h
+        dsimp only
+        split
+        · first
+            | exact h1
+            | (split
+               · exact h1
+               · rename_i hne; exact absurd h1 hne)
+        · exact ih _ h1
+    · split
+      · exact bind_eof_mono _ _ rfl ih
+      · exact ih c h
+
+theorem set_ne_dec (l : List StreamCipher) (i j : Nat) (x : StreamCipher) (h : i ≠ j) :
+    ((setAt l i x)[j]?).map (fun sc => (sc.key, sc.decPos)) = (l[j]?).map (fun sc => (sc.key, sc.decPos)) := by
+  rw [set_other _ _ _ _ h]
+
+/-- `PayloadEncoder.decode` of a packet of another substream: nothing the receiver role of `sub` reads -/
+theorem decodePayload_other_recvFr (env : Env) (c c1 : Conn) (p : Packet) (d : Bytes) (sub : Nat) (hne : p.substreamId ≠ sub)
+    (h : c.decodePayload env p = .ok (d, c1)) : RecvFr c c1 sub := by
+  by_cases h1 : p.type = TYPE_DATA ∧ (!p.payload.isEmpty) = true
+  · by_cases h2 : hasReliable p.flags = true
+    · cases h3 : c.relCiphers[p.substreamId]? with
+      | none => rw [decodePayload_rel_none env c p h1 h2 h3] at h; cases h
+      | some sc =>
+        cases h4 : c.cipherOn with
+        | true =>
+          rw [decodePayload_rel_on env c p sc h1 h2 h3 h4] at h
+          cases hd : env.decompress (rc4At sc.key sc.decPos p.payload) with
+          | error e => rw [hd] at h; cases h
+          | ok x =>
+            rw [hd] at h; cases h
+            exact ⟨rfl, rfl, rfl, rfl, rfl, rfl, rfl, rfl, setAt_length _ _ _, set_ne_dec _ _ _ _ hne, rfl⟩
+        | false =>
+          rw [decodePayload_rel_off env c p sc h1 h2 h3 h4] at h
+          cases hd : env.decompress p.payload with
+          | error e => rw [hd] at h; cases h
+          | ok x => rw [hd] at h; cases h; exact recvFr_refl c sub
+    · rw [decodePayload_unrel env c p h1 h2] at h
+      generalize env.decompress _ = r at h
+      cases r with
+      | error e => cases h
+      | ok x => cases h; exact recvFr_refl c sub
+  · rw [decodePayload_plain env c p h1] at h; cases h; exact recvFr_refl c sub
+
+/-- the part of `RecvFr` that does not mention EOF and state -/
+structure RecvFrL (c c' : Conn) (sub : Nat) : Prop where
+  win : c'.windows[sub]? = c.windows[sub]?
+  q : c'.queues[sub]? = c.queues[sub]?
+  fb : c'.fragBufs[sub]? = c.fragBufs[sub]?
+  lq : c'.queues.length = c.queues.length
+  lfb : c'.fragBufs.length = c.fragBufs.length
+  link : c'.linkUp = c.linkUp
+  len : c'.relCiphers.length = c.relCiphers.length
+  ciph : (c'.relCiphers[sub]?).map (fun sc => (sc.key, sc.decPos)) = (c.relCiphers[sub]?).map (fun sc => (sc.key, sc.decPos))
+  con : c'.cipherOn = c.cipherOn
+
+theorem recvFrL_refl (c : Conn) (sub : Nat) : RecvFrL c c sub := ⟨rfl, rfl, rfl, rfl, rfl, rfl, rfl, rfl, rfl⟩
+
+theorem recvFrL_trans {a b c : Conn} {sub : Nat} (h1 : RecvFrL a b sub) (h2 : RecvFrL b c sub) : RecvFrL a c sub :=
+  ⟨h2.win.trans h1.win, h2.q.trans h1.q, h2.fb.trans h1.fb, h2.lq.trans h1.lq, h2.lfb.trans h1.lfb, h2.link.trans h1.link,
+   h2.len.trans h1.len, h2.ciph.trans h1.ciph, h2.con.trans h1.con⟩
+
+theorem recvFrL_of (c c' : Conn) (sub : Nat) (h : RecvFr c c' sub) : RecvFrL c c' sub :=
+  ⟨h.win, h.q, h.fb, h.lq, h.lfb, h.link, h.len, h.ciph, h.con⟩
+
+theorem recvFrL_bind (c : Conn) (sub : Nat) (r : R) (f : Conn → R) (hr : RecvFrL c r.c sub) (hf : ∀ x, RecvFrL x (f x).c sub) :
+    RecvFrL c (r.bind f).c sub := by
+  unfold R.bind
+  cases r.err with
+  | some e => exact hr
+  | none => exact recvFrL_trans hr (hf _)
+
+/-- the release loop of ANOTHER substream never touches what the receiver role of `sub` reads (EOF and state apart) -/
+theorem consume_other_recvFrL (env : Env) (s sub : Nat) (hne : s ≠ sub) : ∀ (rel : List Packet) (c : Conn),
+    (∀ q ∈ rel, q.substreamId = s) → RecvFrL c (Conn.consume env s rel c).c sub := by
+  intro rel
+  induction rel with
+  | nil => intro c _; exact recvFrL_refl c sub
+  | cons p ps ih =>
+    intro c hall
+    have hps : p.substreamId = s := hall p List.mem_cons_self
+    have hrest : ∀ q ∈ ps, q.substreamId = s := fun q hq => hall q (List.mem_cons_of_mem _ hq)
+    unfold Conn.consume
+    split
+    · split
+      · exact recvFrL_refl c sub
+      · rename_i data c1 hd
+        have e1 : RecvFrL c c1 sub := recvFrL_of _ _ _ (decodePayload_other_recvFr env c c1 p data sub (by rw [hps]; exact hne) hd)
+        split
+        · split
+          · exact recvFrL_trans e1 ⟨rfl, rfl, set_other _ _ _ _ hne, rfl, setAt_length _ _ _, rfl, rfl, rfl, rfl⟩
+          · dsimp only
+            refine recvFrL_trans e1 (recvFrL_bind _ sub _ _ ?_ (fun x => ih x hrest))
+            exact ⟨rfl, set_other _ _ _ _ hne, set_other _ _ _ _ hne, setAt_length _ _ _, setAt_length _ _ _, rfl, rfl, rfl, rfl⟩
+        · dsimp only
+          exact recvFrL_trans e1 (recvFrL_trans (b := { c1 with fragBufs := setAt c1.fragBufs s ((c1.fragBufs[s]?.getD []) ++ data) })
+            ⟨rfl, rfl, set_other _ _ _ _ hne, rfl, setAt_length _ _ _, rfl, rfl, rfl, rfl⟩ (ih _ hrest))
+    · split
+      · exact recvFrL_bind c sub _ _ ⟨rfl, rfl, rfl, rfl, rfl, rfl, rfl, rfl, rfl⟩ (fun x => ih x hrest)
+      · exact ih c hrest
+
+/-- the release loop leaves the state alone, or it has released a DISCONNECT: then the connection is at EOF and DISCONNECTED -/
+theorem consume_state (env : Env) (s : Nat) : ∀ (rel : List Packet) (c : Conn),
+    ((Conn.consume env s rel c).c.state = c.state ∧ (Conn.consume env s rel c).c.eof = c.eof) ∨
+    ((Conn.consume env s rel c).c.eof = true ∧ (Conn.consume env s rel c).c.state = STATE_DISCONNECTED) := by
+  intro rel
+  induction rel with
+  | nil => intro c; exact Or.inl ⟨rfl, rfl⟩
+  | cons p ps ih =>
+    intro c
+    unfold Conn.consume
+    split
+    · split
+      · exact Or.inl ⟨rfl, rfl⟩
+      · rename_i data c1 hd
+        obtain ⟨_, e2, e3⟩ := decodePayload_other env c c1 p data hd
+        split
+        · split
+          · exact Or.inl ⟨e2, e3⟩
+          · dsimp only
+            have hb : ∀ (r : R) (f : Conn → R), r.err = none → (r.bind f).c = (f r.c).c := fun r f h => (bind_ok r f h).2
+            rw [hb _ _ rfl]
+            rcases ih ({ c1 with fragBufs := setAt c1.fragBufs s [], queues := setAt c1.queues s ((c1.queues[s]?.getD []) ++ [(c1.fragBufs[s]?.getD []) ++ data]) } : Conn) with h | h
+            · exact Or.inl ⟨h.1.trans e2, h.2.trans e3⟩
+            · exact Or.inr h
+        · dsimp only
+          rcases ih ({ c1 with fragBufs := setAt c1.fragBufs s ((c1.fragBufs[s]?.getD []) ++ data) } : Conn) with h | h
+          · exact Or.inl ⟨h.1.trans e2, h.2.trans e3⟩
+          · exact Or.inr h
+    · split
+      · have hb : (c.cleanup.bind (Conn.consume env s ps)).c = (Conn.consume env s ps c.cleanup.c).c := (bind_ok _ _ rfl).2
+        rw [hb]
+        right
+        refine ⟨consume_eof_mono env s ps _ rfl, ?_⟩
+        rcases ih c.cleanup.c with h | h
+        · exact h.1
+        · exact h.2
+      · exact ih c
+
+/-- **other substreams do not disturb this one (receiver side)**: `process_reliable` of a packet of another substream, as long
+    as it does not end the connection (a released DISCONNECT does), leaves the receiver role of `sub` untouched -/
+theorem processReliable_other_recvFr (env : Env) (c : Conn) (p : Packet) (sub : Nat) (hne : p.substreamId ≠ sub)
+    (hgw : ∀ w, c.windows[p.substreamId]? = some w → ∀ kq ∈ w.packets, kq.2.substreamId = p.substreamId)
+    (hes : EofState c) (heof : (c.processReliable env p).c.eof = c.eof) : RecvFr c (c.processReliable env p).c sub := by
+  unfold Conn.processReliable at heof ⊢
+  split at heof
+  · rename_i hw; exact recvFr_refl c sub
+  · rename_i w hw
+    simp only [] at heof ⊢
+    generalize hu : w.update p.packetId p = u at heof ⊢
+    obtain ⟨w', rel⟩ := u
+    simp only [] at heof ⊢
+    have hrel : ∀ q ∈ rel, q.substreamId = p.substreamId := by
+      intro q hq
+      have : q ∈ (w.update p.packetId p).2 := by rw [hu]; exact hq
+      rcases update_mem w _ _ _ this with h | h
+      · rw [h]
+      · obtain ⟨k, hk⟩ := h; exact hgw w hw (k, q) hk
+    have hL := consume_other_recvFrL env p.substreamId sub hne rel ({ c with windows := setAt c.windows p.substreamId w' } : Conn) hrel
+    have hS := consume_state env p.substreamId rel ({ c with windows := setAt c.windows p.substreamId w' } : Conn)
+    have hst : (Conn.consume env p.substreamId rel ({ c with windows := setAt c.windows p.substreamId w' } : Conn)).c.state = c.state := by
+      rcases hS with h | h
+      · exact h.1
+      · have hce : c.eof = true := by rw [← heof]; exact h.1
+        rw [h.2]; exact (hes hce).symm
+    exact ⟨hL.win.trans (set_other _ _ _ _ hne), hL.q, hL.fb, hL.lq, hL.lfb, heof, hL.link, hst, hL.len, hL.ciph, hL.con⟩
 
 end Nx.L1
